@@ -1136,7 +1136,25 @@ def r_abort(ctx):
         for n, (pt, d, v, conds) in enumerate(flat):
             items = v[1] if isinstance(v, tuple) and v[0] == 'max' else (v,)
             has_param = any(M.is_param(x) and x[1] == asb.name for x in items)
-            has_inflight = any(M.contains(x, lambda y: M.is_field(y, 'upper_bounds', 'Critical')) and M.contains(x, lambda y: M.is_call(y, 'Iterator::max', 'max', 'fold')) for x in items)
+            def running_max(x):
+                # `let mut m = MIN; for ub in upper_bounds.iter() { if ub > m { m = ub } }`: an accumulator that starts at MIN and is only
+                # ever replaced, behind `elem > m` / `elem >= m`, by the element of an iteration over upper_bounds
+                if not (isinstance(x, tuple) and x and x[0] == 'var' and x[1] == asb.name):
+                    return False
+                ok_, n_elem = True, 0
+                for d_ in asb.defs().get(x[2], []):
+                    if d_[2] not in ('whole', 'call'):
+                        return False
+                    t_ = asb.origin._def_term(x[2], d_, 0)
+                    if is_min_const(t_):
+                        continue
+                    if not (M.contains(t_, lambda y: M.is_call(y, 'Iterator::next')) and M.contains(t_, lambda y: M.is_field(y, 'upper_bounds', 'Critical'))):
+                        return False
+                    n_elem += 1
+                    g_, _, _ = M.guarded(asb, [(d_[0], d_[1])], lambda atoms, lit, t_=t_: any(M.cmp_matches(a_, lambda u: u == t_, lambda u: u == x, '>=') or M.cmp_matches(a_, lambda u: u == t_, lambda u: u == x, '>') for a_ in atoms))
+                    ok_ = ok_ and g_
+                return ok_ and n_elem >= 1
+            has_inflight = any((M.contains(x, lambda y: M.is_field(y, 'upper_bounds', 'Critical')) and M.contains(x, lambda y: M.is_call(y, 'Iterator::max', 'max', 'fold'))) or running_max(x) for x in items)
             def is_top(x):
                 # ub of the sub-problem on top of the fringe, MIN (or nothing) when the fringe is empty
                 f = opt_fold(x)
@@ -1375,7 +1393,20 @@ def r_open_by_layer(ctx, rule='R09.8'):
             (bb, t) = cl[0]
             cp = gw.term_point(bb)
             arg = gw.origin.operand(t['args'][1], cp)
-            fal = lambda x: solver_field(x, 'first_active_layer')
+            fal0 = lambda x: solver_field(x, 'first_active_layer')
+            # cursor idiom: `for layer in self.first_active_layer.. { .. self.first_active_layer = layer + 1; }` — the loop variable of a
+            # RangeFrom that starts at the field, with the field advanced to `layer + 1` in every iteration that goes on, IS the field at
+            # the top of each iteration (induction: start = field; next = previous + 1 = field)
+            cursor = []
+            for it_ in iterations(ctx, gw):
+                if it_['kind'] != 'for' or it_['where'] is not gw:
+                    continue
+                src_ = it_['src']
+                if isinstance(src_, tuple) and src_ and src_[0] == 'aggr' and (src_[1] or '').endswith('RangeFrom') and fal0(dict(src_[3]).get('start')):
+                    adv_ = [pt_ for (pt_, d_, v_, s_) in writes(gw) if fal0(d_) and v_ == M.mk_add(it_['item'], ('const', 1, None, 'usize'))]
+                    if adv_ and every_iteration_does(dict(it_, ends=[it_['at']]), adv_):
+                        cursor.append(it_['item'])
+            fal = lambda x: fal0(x) or any(x == c_ for c_ in cursor)
             ok1, _, _ = M.guarded(gw, [cp], lambda atoms, lit: any(M.cmp_matches(a, fal, lambda x: M.is_call(x, 'Problem::nb_variables'), '<') for a in atoms))
             def zero_open(x):
                 terms = x[1] if isinstance(x, tuple) and x[0] == 'add' else (x,)
@@ -1383,7 +1414,7 @@ def r_open_by_layer(ctx, rule='R09.8'):
                 has_ong = any(isinstance(y, tuple) and y[0] == 'index' and solver_field(y[1], 'ongoing_by_layer') and fal(y[2]) for y in terms)
                 return has_open and (has_ong or tag == 'seq') and len(terms) == (2 if tag == 'par' else 1)
             ok2, _, _ = M.guarded(gw, [cp], lambda atoms, lit: any(M.cmp_matches(a, zero_open, lambda x: M.is_const(x, 0), '=') for a in atoms))
-            fw = [pt for (pt, d, v, s) in writes(gw) if fal(d) and v == M.mk_add(d, ('const', 1, None, 'usize'))]
+            fw = [pt for (pt, d, v, s) in writes(gw) if fal0(d) and (v == M.mk_add(d, ('const', 1, None, 'usize')) or any(v == M.mk_add(c_, ('const', 1, None, 'usize')) for c_ in cursor))]
             r = gw.reach(gw.after(cp), avoid=fw)
             ok3 = bool(fw) and cp not in r and not any(q in r for q in ret_points(gw))
             ctx.check(fal(arg) and ok1 and ok2 and ok3, rule, tag + '/clear_layer-protocol', gw, gw.loc(bb),
